@@ -91,7 +91,7 @@ func oneSafeSearchStress(r *vkit.Run, s *srv, idx int) (goOn bool) {
 	mkReq := func() *requester {
 		q := onlyComp(reqs[rng.IntN(len(reqs))], "safesearch")
 		q.Parental = &filter.ConfigParental{Enabled: true, SafeSearchGeneralEnabled: true, SafeSearchYouTubeEnabled: true}
-		return q
+		return q.fix()
 	}
 	readers := make([]*requester, nReaders)
 	for w := range readers {
@@ -263,7 +263,7 @@ func oneSafeSearchStress(r *vkit.Run, s *srv, idx int) (goOn bool) {
 					map[string]any{
 						"phase": "safe-search-stress", "history_index": idx, "round": round, "version_before": old, "version_after": v,
 						"rule": "host w<i> is rewritten in version v iff i+v is even, to safe<v>.<kind>.test",
-						"host": k.host(), "qtype": dns.TypeToString[k.QT], "expected": want, "observed": o,
+						"host": k.host(), "qtype": dns.Type(k.QT).String(), "expected": want, "observed": o,
 						"refresh_call_ns": wcall, "refresh_return_ns": wret, "probe_call_ns": pcall,
 						"reader_call_that_touched_the_key": en, "readers": nReaders, "safe_search_cache_count": opt.SafeSearchCount,
 					})
